@@ -58,4 +58,12 @@ theorem update_code (truth : Term → Bool) :
         Term.app "block" [Term.app "assign" [Term.sym "column", Term.app "._reconcile_column" [Term.sym "self", Term.sym "column"]],
           Term.app "yield" [Term.app "tuple" [Term.sym "colname", Term.app ".copy" [Term.sym "column"]]]]]] := rfl
 
+/-- signatures: `rename(**to_from_pairs)` takes the NEW column names as keyword names; select / unselect / cbind take
+    names and frames positionally. -/
+theorem reshaping_signatures :
+    DataFrame_rename_signature = ["self", "**to_from_pairs"] ∧ DataFrame_select_signature = ["self", "*colnames"] ∧
+    DataFrame_unselect_signature = ["self", "*colnames"] ∧ DataFrame_cbind_signature = ["self", "*others"] ∧
+    DataFrame_update_signature = ["self", "other"] :=
+  ⟨rfl, rfl, rfl, rfl, rfl⟩
+
 end DI.Tie.C09
